@@ -65,6 +65,7 @@ Lemma sync_ips_pods p fl : ∀ ips idx w, w_pods (sync_ips w p ips fl idx) = w_p
 Proof.
   induction ips as [|x rest IH]; intros idx w; [done|]. cbn [sync_ips].
   destruct (by_ip (w_ipam w) x) as [e|]; [|apply IH]. destruct (Keys.is_empty (e_key e)); [|apply IH].
+  destruct (existsb _ (by_key (w_ipam w) (pod_key p))); [apply IH|].
   destruct (IH (S idx) (set_ipam w (alloc_specific (w_ipam w) (pod_key p) x
               {| a_policy := policy_of p; a_node := pd_node p; a_uid := pd_uid p |} (bool_decide (f_store fl = Some idx))).1))
     as (H1 & H2 & H3).
@@ -157,6 +158,25 @@ Qed.
 
 Definition o_f16 : oracle := orc None None [ip3; ip5].
 
+(** the pod-IP sync as it was when F16 was found: the given object used as it is, and no test of the UIDs the key's
+    other IPs are stored for (that test, F18, came later: Model/Plugin.v [sync_ips]).  Exact copies of [sync_ips] /
+    [sync_pod_ip] without the F18 test. *)
+Fixpoint sync_ips_old (w : world) (p : pod) (ips : list N) (fl : faults) (idx : nat) : world :=
+  match ips with
+  | [] => w
+  | x :: rest =>
+      let w' := match by_ip (w_ipam w) x with
+                | Some e => if Keys.is_empty (e_key e) then
+                              let a := {| a_policy := policy_of p; a_node := pd_node p; a_uid := pd_uid p |} in
+                              set_ipam w (fst (alloc_specific (w_ipam w) (pod_key p) x a (bool_decide (f_store fl = Some idx))))
+                            else w
+                | None => w
+                end in
+      sync_ips_old w' p rest fl (S idx)
+  end.
+Definition sync_pod_ip_old (w : world) (p : pod) (fl : faults) : world :=
+  if pd_phase p =? 1 then sync_ips_old w p (pd_ips p) fl 0 else w.
+
 Theorem stale_sync_refuted_old_l : ∃ nodes ops ops1 pa q x o ocl,
   wf_hist (world0 false nodes) (ops1 ++ ops) ∧
   let w := prun (world0 false nodes) (ops1 ++ ops) in
@@ -166,13 +186,17 @@ Theorem stale_sync_refuted_old_l : ∃ nodes ops ops1 pa q x o ocl,
   (* [q] is the pod of that name now: another incarnation, live, bound to another IP, owning it *)
   w_pods w !! pk q = Some q ∧ w_lister w !! pk q = Some q ∧ pk q = pk pa ∧ pd_uid q ≠ pd_uid pa ∧ x ∉ pd_ips q ∧
   live_bound q ∧ owned (w_ipam w) q ∧
-  (* old behaviour: after the sync with [pa] and the resync item of [x] (not stuck), [q] no longer owns its IP *)
-  (resync_section (sync_given false w pa no_faults) x o ocl no_faults).2 = SOk ∧
-  ¬ owned (w_ipam (resync_section (sync_given false w pa no_faults) x o ocl no_faults).1) q ∧
-  (∀ y, y ∈ pd_ips q → i_alloc (w_ipam (resync_section (sync_given false w pa no_faults) x o ocl no_faults).1) !! y = None) ∧
+  (* old behaviour (the given object synced as it is, no F18 test): after the sync with [pa] and the resync item of [x]
+     (not stuck), [q] no longer owns its IP *)
+  (resync_section (sync_pod_ip_old w pa no_faults) x o ocl no_faults).2 = SOk ∧
+  ¬ owned (w_ipam (resync_section (sync_pod_ip_old w pa no_faults) x o ocl no_faults).1) q ∧
+  (∀ y, y ∈ pd_ips q → i_alloc (w_ipam (resync_section (sync_pod_ip_old w pa no_faults) x o ocl no_faults).1) !! y = None) ∧
   (* repaired behaviour, same continuation: [q] keeps it *)
   (resync_section (sync_given true w pa no_faults) x o ocl no_faults).2 = SOk ∧
-  owned (w_ipam (resync_section (sync_given true w pa no_faults) x o ocl no_faults).1) q.
+  owned (w_ipam (resync_section (sync_given true w pa no_faults) x o ocl no_faults).1) q ∧
+  (* the later F18 test alone (the given object used as it is, [sync_given false]) also refuses this sync: the key holds
+     the IP of [q], stored for another UID *)
+  sync_given false w pa no_faults = w.
 Proof.
   exists nodes1, (h_f16_del ++ h_f16_new), h_f16_a, pod_a, pod_b, ip3, o_f16, []. fold h_f16.
   pose proof h_f16_wf as Hwf. pose proof (winv_reachable _ _ _ Hwf) as HW.
@@ -197,6 +221,7 @@ Proof.
   - rewrite (sync_given_stale _ pod_a pod_b no_faults Hl); [|discriminate].
     pose proof (winv_resync _ ip3 o_f16 [] no_faults HW) as HW'. rewrite pstep_resync_fst in HW'.
     apply (wi_owned _ HW' (pk pod_b) pod_b); [|done]. vm_compute. reflexivity.
+  - vm_compute. reflexivity.
 Qed.
 
 (** the repaired step on the witness: the sync with the earlier object changes nothing at all *)
